@@ -78,13 +78,15 @@ def run_block(ind, sp_name, texts, keys, emit, tier):
     from vf import eng
     from vtlengine.DataTypes._time_checking import check_time_period
     from vtlengine.DataTypes.TimeHandling import TimePeriodHandler
-    comps = [("Id_1", "Integer", "Identifier", False), ("Me_1", "Time_Period", "Measure", True)]
+    comps_rt = [("Id_1", "Integer", "Identifier", False), ("Me_1", "Time_Period", "Measure", True)]
+    # a second, nullable Time_Period column (null on every third datapoint): formatting one column must not depend on the other
+    comps = comps_rt + [("Me_2", "Time_Period", "Measure", True)]
     st = eng.structures(eng.mkds("DS_1", comps))
     work = os.path.join(eng.SCRATCH, "c21")
     os.makedirs(work, exist_ok=True)
     csvp = os.path.join(work, "DS_1.csv")
     with open(csvp, "w") as f:
-        f.write("Id_1,Me_1\n" + "".join(f"{i},{t}\n" for i, t in enumerate(texts)))
+        f.write("Id_1,Me_1,Me_2\n" + "".join(f"{i},{t},{'' if i % 3 == 0 else t}\n" for i, t in enumerate(texts)))
     n = len(texts)
     case0 = {"indicator": ind, "spelling": sp_name, "first": texts[0], "n": n}
     for fmt in FORMATS:
@@ -94,6 +96,15 @@ def run_block(ind, sp_name, texts, keys, emit, tier):
         results = {}
         s, r = eng.call(eng.run, "DS_r <- DS_1;", st, {"DS_1": Path(csvp)}, time_period_output_format=fmt)
         results["memory"] = (s, r, (lambda rr: dict(zip(rr["DS_r"].data["Id_1"].tolist(), rr["DS_r"].data["Me_1"].tolist()))) if s == "ok" else None)
+        if fmt in ("vtl", "natural"):
+            # the same load with the documented switch that skips the post-load checks (duplicates, temporal format, DWI cardinality):
+            # the spellings must still denote the same periods
+            os.environ["VTL_SKIP_LOAD_VALIDATION"] = "1"
+            try:
+                s4, r4 = eng.call(eng.run, "DS_r <- DS_1;", st, {"DS_1": Path(csvp)}, time_period_output_format=fmt)
+            finally:
+                os.environ.pop("VTL_SKIP_LOAD_VALIDATION", None)
+            results["memory-skip-load-validation"] = (s4, r4, (lambda rr: dict(zip(rr["DS_r"].data["Id_1"].tolist(), rr["DS_r"].data["Me_1"].tolist()))) if s4 == "ok" else None)
         # ---- path i: file ---------------------------------------------------------------------
         out = os.path.join(work, "out")
         shutil.rmtree(out, ignore_errors=True)
@@ -141,7 +152,7 @@ def run_block(ind, sp_name, texts, keys, emit, tier):
             with open(csvp + ".rt", "w") as f:
                 f.write("Id_1,Me_1\n" + "".join(f"{i},{t}\n" for i, t in enumerate(want)))
             os.replace(csvp + ".rt", os.path.join(work, "RT.csv"))
-            st2 = eng.structures(eng.mkds("RT", comps))
+            st2 = eng.structures(eng.mkds("RT", comps_rt))
             s3, r3 = eng.call(eng.run, "DS_r <- RT;", st2, {"RT": Path(os.path.join(work, "RT.csv"))}, time_period_output_format="vtl")
             b = f"{ind}/{sp_name}/{fmt}/round-trip"
             exp = [render("vtl", ind, y, k) for y, k in keys]
